@@ -16,3 +16,12 @@ static int count(const std::vector<int>& v, bool verbose) {
 }
 int lib_identify(const std::vector<int>& v) { std::cout << "probing\n"; return count(v, DFS::verbose); }  // seeded: library writes stdout
 int info_width() { const char* c = std::getenv("COLUMNS"); return c ? std::atoi(c) : 80; }   // seeded: second consumer
+// seeded (R-C18-6): std::stoi's out_of_range leaves the function that reads COLUMNS
+#include <stdexcept>
+#include <string>
+int cat_columns_throwing()
+{
+  const char* c = std::getenv("COLUMNS");
+  if (!c) return 80;
+  try { return std::stoi(c); } catch (std::invalid_argument&) { return 80; }
+}
